@@ -38,9 +38,10 @@ class MultiTaskBCD(BaseSolver):
         stop_crit = np.inf  # initialize for case n_iter=0
         K = 5
 
-        W = (np.zeros((n_features + self.fit_intercept, n_tasks)) if W_init is None
-             else W_init)
-        XW = np.zeros((n_samples, n_tasks)) if XW_init is None else XW_init
+        W = (np.zeros((n_features + self.fit_intercept, n_tasks), dtype=X.dtype)
+             if W_init is None else W_init)
+        XW = (np.zeros((n_samples, n_tasks), dtype=X.dtype) if XW_init is None
+              else XW_init)
 
         if W.shape[0] != n_features + self.fit_intercept:
             if self.fit_intercept:
